@@ -32,20 +32,30 @@ impl ToTokens for FromDeriveInputImpl<'_> {
         if let Data::Struct(ref data) = self.base.data {
             if data.is_newtype() {
                 // The newtype's own `supports(..)` is checked before the input is handed on.
+                // Like the receivers with named fields, the shape is reported together with
+                // the mistakes the inner receiver finds, not instead of them.
                 let supports = self.supports.map(|i| {
                     quote! {
                         #i
-                        __validate_body(&#input.data)?;
+                        __errors.handle(__validate_body(&#input.data));
                     }
                 });
+                let declare_errors = self.base.declare_errors();
+                let check_errors = self.base.check_errors();
 
                 self.wrap(
                     quote!{
                         fn from_derive_input(#input: &::darling::export::syn::DeriveInput) -> ::darling::Result<Self> {
+                            #declare_errors
+
                             #supports
 
+                            let __inner = __errors.handle(::darling::FromDeriveInput::from_derive_input(#input));
+
+                            #check_errors
+
                             ::darling::export::Ok(
-                                #ty_ident(::darling::FromDeriveInput::from_derive_input(#input)?)
+                                #ty_ident(__inner.expect("Errors were already checked"))
                             ) #post_transform
                         }
                     },
